@@ -36,8 +36,8 @@ extern "C" void vp_thr_rw(d1::rw_mutex* m, int tid, int role) {
     m->unlock(); return;
   }
   m->lock(); vp_enter(tid, 1);
-  m->downgrade();
-  vp_leave(tid, 3);                   // observer: writer became reader without a gap
+  vp_leave(tid, 3);                   // observer BEFORE the call: from here on this thread counts as a reader (once downgrade() has run, other
+  m->downgrade();                     // readers may legitimately enter at once; a writer getting in now is a violation either way)
   vp_leave(tid, 0);
   m->unlock_shared();
 }
